@@ -145,3 +145,54 @@ fn d6_dns_query_still_answered() {
     let f = udp4_frame(40000, 53, &p);
     assert!(reply(&f, &m).is_some());
 }
+
+fn no_panic(frame: &[u8], m: &Masscanned) -> bool {
+    let f = frame.to_vec();
+    let mref = std::panic::AssertUnwindSafe(m);
+    std::panic::catch_unwind(move || { let _ = reply(&f, *mref); }).is_ok()
+}
+#[test]
+fn d1_short_frame() {
+    let m = mk(None);
+    for n in 0..14 {
+        assert!(no_panic(&vec![0xffu8; n], &m), "frame of {} bytes panics", n);
+    }
+}
+#[test]
+fn d2_short_neighbor_solicitation() {
+    let m = mk(None);
+    // ICMPv6 type 135 code 0 with an 8-byte body only (no target address)
+    let f = ip6_frame(Ipv6Addr::new(0x2001,0,0,0,0,0,0,1), Ipv6Addr::new(0x2001,0,0,0,0,0,0,2), 58, &[135,0,0,0, 0,0,0,0]);
+    assert!(no_panic(&f, &m), "truncated neighbor solicitation panics");
+}
+#[test]
+fn d3_stun_attribute_overrun() {
+    let m = mk(None);
+    // attribute 0x0005 claims 0xffff bytes, 256 follow
+    let mut p = vec![0x00,0x01, 0x01,0x04, 0x21,0x12,0xa4,0x42];
+    p.extend_from_slice(&[7u8;12]);
+    p.extend_from_slice(&[0x00,0x05, 0xff,0xff]);
+    p.extend_from_slice(&[0u8;256]);
+    assert!(no_panic(&udp4_frame(40000, 3478, &p), &m), "STUN attribute length overrun panics");
+    // MAPPED-ADDRESS with unknown family
+    let mut p = vec![0x00,0x01, 0x01,0x04, 0x21,0x12,0xa4,0x42];
+    p.extend_from_slice(&[7u8;12]);
+    p.extend_from_slice(&[0x00,0x01, 0x00,0x08, 0,9, 0,80, 1,2,3,4]);
+    p.extend_from_slice(&[0x80,0x22, 0,244]);
+    p.extend_from_slice(&[b'x';244]);
+    assert!(no_panic(&udp4_frame(40000, 3478, &p), &m), "STUN MAPPED-ADDRESS with unknown family panics");
+    // CHANGE-REQUEST of length 0 at the very end
+    let mut p = vec![0x00,0x01, 0x01,0x05, 0x21,0x12,0xa4,0x42];
+    p.extend_from_slice(&[7u8;12]);
+    p.extend_from_slice(&[0x80,0x22, 0,252]);
+    p.extend_from_slice(&[b'x';252]);
+    p.extend_from_slice(&[0x00,0x03, 0x00,0x00, 0]);
+    assert!(no_panic(&udp4_frame(40000, 3478, &p), &m), "short STUN CHANGE-REQUEST panics");
+}
+#[test]
+fn d4_http_non_utf8_uri_with_warn_logging() {
+    log::set_max_level(log::LevelFilter::Warn);
+    let m = mk(None);
+    let f = udp4_frame(40000, 80, b"GET /\xff HTTP/1.1\r\n\r\n");
+    assert!(no_panic(&f, &m), "HTTP request with a non-UTF-8 target panics when warn logging is enabled");
+}
